@@ -142,6 +142,12 @@ def w_product(acc):
             acc.run("deriv", o_deriv, d, True)
 
 
+def w_large(acc, n):
+    for ref in ("s0", "s50", "undefined", "S0"):
+        acc.run("deriv", o_deriv, bibgen.large_document(n, ref=ref), True)
+    acc.classes["large-document"] += 1
+
+
 def gen_refdoc(ints):
     """Documents dense in references: many @string definitions (keys s, t, S) and fields drawn from VALUE_POOL."""
     src = bibgen.Src(ints)
@@ -179,7 +185,7 @@ def w_random(acc, n, seed):
 
 def run(chk):
     quick = chk.tier == "quick"
-    tasks = [("w_product", ())]
+    tasks = [("w_product", ())] + [("w_large", (n,)) for n in (130, 300, 1100)]
     n_rand = 24000 if quick else 400000
     shards = 16 if quick else 64
     for s in range(shards):
